@@ -378,6 +378,7 @@ func (t *Total) calculateFinalSum(zero num.Amount, rr cbc.Key) {
 
 func (t *Total) calculateBaseCategoryTotal(ct *CategoryTotal, zero num.Amount, rr cbc.Key) {
 	ct.Amount = zero
+	ct.Surcharge = nil
 	for _, rt := range ct.Rates {
 		if rt.Percent == nil {
 			rt.Amount = zero
